@@ -52,6 +52,9 @@ func (c14) Gen(rng *rand.Rand, tier string, k int) *Case {
 		c.Delay = []int{9, 1, -5, -11}[rng.Intn(4)] // zone offset in hours (field reused)
 		c.Workers = []int{0, 20, 16}[rng.Intn(3)]   // hour of day (field reused)
 	}
+	if n >= 3 && rng.Intn(12) == 0 {
+		c.Repeat = 2 + rng.Intn(n-1) // a second bar for the same day (a correction, an extra session)
+	}
 	if S > 2 && rng.Intn(12) == 0 {
 		c.Pad = 1 + rng.Intn(S/2) // position (1-based) of a snapshot with a zero close (field reused)
 	}
@@ -135,6 +138,13 @@ func (c14) Run(c *Case, st *Stats) []Violation {
 		z.Close = 0
 		snaps[c.Pad-1] = &z
 		st.Faults["snapshot-with-a-zero-close-in-the-warm-up"]++
+	}
+	if c.Repeat >= 2 && c.Repeat <= len(snaps) {
+		// the row of every snapshot is still due: two rows with the same date
+		z := *snaps[c.Repeat-1]
+		z.Date = snaps[c.Repeat-2].Date
+		snaps[c.Repeat-1] = &z
+		st.Faults["two-snapshots-with-the-same-date"]++
 	}
 	cfgClass := "default"
 	if len(c.Cfg) > 0 {
@@ -263,9 +273,14 @@ func (c14) Run(c *Case, st *Stats) []Violation {
 		add("row-count", fmt.Sprintf("%d rows for %d snapshots", len(p.rows), n))
 		return vs
 	}
-	byDate := map[string]int{}
+	byDate := map[string][]int{}
 	for i, sn := range snaps {
-		byDate[fmt.Sprintf("new Date(%q)", sn.Date.Format("2006-01-02"))] = i
+		k := fmt.Sprintf("new Date(%q)", sn.Date.Format("2006-01-02"))
+		byDate[k] = append(byDate[k], i)
+	}
+	rowSnap := make([]int, len(p.rows))
+	for r := range rowSnap {
+		rowSnap[r] = -1
 	}
 	// reference: the same strategy's Compute + Outcome, run separately
 	ref := runPipe(PipeOpts{SimOpts: SimOpts{Policy: simrt.PolicySpec{Name: "fifo"}}}, [][]*asset.Snapshot{snaps},
@@ -318,7 +333,26 @@ func (c14) Run(c *Case, st *Stats) []Violation {
 			add("row-shape", fmt.Sprintf("row %d has %d cells for %d columns", r, len(row), len(p.cols)))
 			break
 		}
-		i, ok := byDate[row[0]]
+		// the rows are the last len(rows) snapshots (ascending, consecutive, reaching the last one):
+		// row r belongs to snapshot n-len(rows)+r, whose date it must show (two snapshots may share
+		// a date, so the date alone does not identify the snapshot)
+		i, ok := -1, false
+		for _, k := range byDate[row[0]] {
+			if k == n-len(p.rows)+r {
+				i, ok = k, true
+			}
+		}
+		if !ok {
+			for _, k := range byDate[row[0]] {
+				if k > prev {
+					i, ok = k, true // for the messages below: the first snapshot of that date not yet shown
+					break
+				}
+			}
+		}
+		if ok {
+			rowSnap[r] = i
+		}
 		if !ok || i <= prev {
 			add("wrong-date", fmt.Sprintf("row %d is %s: not a snapshot date in ascending order", r, row[0]))
 			break
@@ -407,7 +441,10 @@ func (c14) Run(c *Case, st *Stats) []Violation {
 						if len(p.rows[r]) != len(p2.rows[r]) || p.rows[r][k+1] == p2.rows[r][k+1] {
 							continue
 						}
-						d := byDate[p.rows[r][0]]
+						d := rowSnap[r]
+						if d < 0 {
+							continue
+						}
 						if d < j {
 							add("indicator-column-early["+col[1]+"]", fmt.Sprintf("column %q changes at the row of snapshot %d when only snapshot %d is perturbed", col[1], d, j))
 						} else if d > j && (c.Shape == ShapeWalk || c.Shape == ShapeSpiky) && snaps[j-1].Volume > 2 && smoothColumns[col[1]] {
